@@ -80,6 +80,46 @@ def gen(out):
         raise Missing(f"{orch_rel}: ShowResponseWriter::new arguments")
     out.append(f"Definition mat_show_applies_limit : bool := {'false' if m.group(1) == 'None' and m.group(2) == 'None' else 'true'}.")
 
+    # which mark the next SHOW uses, and when the catalog entry is rewritten (two-step persistence of SHOW)
+    ref_rel = "src/command/handlers/show/delta/refresher.rs"
+    fs_rel = "src/command/handlers/show/store/frame_streamer.rs"
+    ref, fst = read(ref_rel), read(fs_rel)
+    m = re.search(r"let initial_high_water\s*=\s*([^;]+);", ref)
+    if not m:
+        raise Missing(f"{ref_rel}: initial_high_water")
+    src = m.group(1).strip()
+    if src == "sink.high_water_mark()":
+        from_store = True
+    elif src.startswith("entry.high_water_mark"):
+        from_store = False
+    else:
+        raise Missing(f"{ref_rel}: initial_high_water = {src}")
+    if not re.search(r"WatermarkDeduplicator::new\(\s*initial_high_water,", ref):
+        raise Missing(f"{ref_rel}: the watermark filter is not built from initial_high_water")
+    if "let initial_high_water = delta_refresher.initial_high_water();" not in orch:
+        raise Missing(f"{orch_rel}: guard timestamp is not the refresher's initial mark")
+    out.append(f"Definition mat_delta_mark_from_store : bool := {'true' if from_store else 'false'}.")
+    m = re.search(r"\.delta_command\(([^)]*)\)", orch)
+    if not m:
+        raise Missing(f"{orch_rel}: delta_command argument")
+    arg = m.group(1).strip()
+    if arg == "entry.high_water_mark":
+        since_cat = True
+    elif "initial_high_water" in arg or "sink" in arg:
+        since_cat = False
+    else:
+        raise Missing(f"{orch_rel}: delta_command({arg})")
+    out.append(f"Definition mat_delta_since_from_catalog : bool := {'true' if since_cat else 'false'}.")
+    i_write, i_persist = orch.find("response_writer.write(stream).await?"), orch.find("self.persist_outcome(&mut catalog_handle, outcome)?")
+    if i_write < 0 or i_persist < 0:
+        raise Missing(f"{orch_rel}: response_writer.write(stream).await? / persist_outcome")
+    out.append(f"Definition mat_catalog_after_response : bool := {'true' if i_write < i_persist else 'false'}.")
+    if "let frames = store.frames().to_vec();" not in fst:
+        raise Missing(f"{fs_rel}: the stored frames are not the store's manifest frames")
+    refz = re.sub(r"\s+", " ", ref)
+    if not re.search(r"sink\.lock\(\)\.await\.append\(batch\.as_ref\(\)\).*?sender\.send\(batch\)\.await", refz):
+        raise Missing(f"{ref_rel}: append-then-send in the delta task")
+
     # one batch per flow up to this many rows (the model delivers one batch per source)
     m = re.search(r"const\s+STREAMING_BATCH_SIZE\s*:\s*usize\s*=\s*([0-9_]+)\s*;", scan)
     if not m:
